@@ -149,8 +149,9 @@ def run(sim):
     for i in range(n):
         plan.append((sim.draw_weighted([("none", 4), ("noop", 2), ("succ", 2), ("fail", 2), ("raise", 1 if kind == "dl" else 0)], "canceller"),
                      sim.draw_weighted([("no", 5), ("ok", 2), ("fail", 2)], "prefire")))
+    chained_ok = sim.draw_bool(0.5, "deferred_shapes")
     sim.config = {"n": n, "kind": kind, "flags": list(flags), "cancel_w": cancel_w,
-                  "cancellers": [p[0] for p in plan], "prefire": [p[1] for p in plan]}
+                  "cancellers": [p[0] for p in plan], "prefire": [p[1] for p in plan], "shapes": chained_ok}
 
     history = []            # (index, ok, payload) in firing order, as seen by the first callback of each input
     observed = {}           # (index, observer id) -> list of results seen
@@ -179,7 +180,11 @@ def run(sim):
                 raise Boom("canceller-raised", i)
         return canceller
 
+    done = [False] * n      # input i has an outcome (its recording callback ran)
+    targets = {}            # chained inputs: index -> the unfired Deferred the (already called back) input is waiting on
+
     def rec(res, i):
+        done[i] = True
         if isinstance(res, Failure):
             history.append((i, False, res.value))
             st["failures"] += 1
@@ -194,6 +199,17 @@ def run(sim):
     agg_box = []
     inputs = []
     for i, (ck, pre) in enumerate(plan):
+        if pre == "no" and chained_ok and sim.draw_bool(0.3, "called_but_pending"):
+            # the input has already been called back, but its callback chain is waiting on another, unfired Deferred:
+            # `called` is true, the input has no result yet and the aggregate is still waiting for it
+            sim.probe("input_called_but_waiting_on_another")
+            targets[i] = defer.Deferred(make_canceller(i, ck))
+            d = CountingDeferred(None)
+            d.addCallback(lambda _ignored, i=i: targets[i])
+            d.addBoth(rec, i)
+            inputs.append(d)
+            d.callback("pre")
+            continue
         d = CountingDeferred(make_canceller(i, ck))
         d.addBoth(rec, i)
         inputs.append(d)
@@ -265,7 +281,7 @@ def run(sim):
             for j in range(n):
                 if j == w:
                     continue
-                sim.check("race-others-done", inputs[j].called, "loser", "input %d still unfired after race was won by %d" % (j, w))
+                sim.check("race-others-done", done[j], "loser", "input %d still unfired after race was won by %d" % (j, w))
                 if j in snap["unfired"] and j not in before_win:
                     sim.check("race-cancels-others", inputs[j].cancel_calls > snap["cc"][j], "loser",
                               "input %d was unfired when %d won but received no cancel()" % (j, w))
@@ -276,7 +292,7 @@ def run(sim):
         sim.state((kind, flags, min(n, 6), len(history), exp[0] if exp else "-"))
 
     def snapshot():
-        return {"unfired": set(j for j in range(n) if not inputs[j].called), "cc": [d.cancel_calls for d in inputs],
+        return {"unfired": set(j for j in range(n) if not done[j]), "cc": [d.cancel_calls for d in inputs],
                 "canc": list(canceller_calls), "agg_fired": bool(agg_res)}
 
     # ---- aggregate construction is the first operation
@@ -294,16 +310,17 @@ def run(sim):
     check_all(snap, "construct")
 
     def op_fire(ok):
-        un = [j for j in range(n) if not inputs[j].called]
+        un = [j for j in range(n) if not done[j]]
         i = sim.draw_choice(un, "which")
         sim.event("fire", i, "ok" if ok else "fail")
+        t = targets.get(i, inputs[i])
         if ok:
-            inputs[i].callback(("v", i, fresh()))
+            t.callback(("v", i, fresh()))
         else:
-            inputs[i].errback(Boom("e", i, fresh()))
+            t.errback(Boom("e", i, fresh()))
 
     def op_cancel_input():
-        un = [j for j in range(n) if not inputs[j].called]
+        un = [j for j in range(n) if not done[j]]
         i = sim.draw_choice(un, "which")
         sim.event("cancel-input", i)
         user_cancels[i] += 1
@@ -330,10 +347,10 @@ def run(sim):
                     sim.check("canceller-once", canceller_calls[j] == s["canc"][j] + 1, kind,
                               "canceller of input %d ran %d times" % (j, canceller_calls[j] - s["canc"][j]))
                 if plan[j][0] != "raise":
-                    sim.check("cancelled-input-fired", inputs[j].called, kind, "input %d still unfired after aggregate cancel" % j)
+                    sim.check("cancelled-input-fired", done[j], kind, "input %d still unfired after aggregate cancel" % j)
 
     steps = 0
-    while any(not d.called for d in inputs) and steps < 60:
+    while any(not done[j] for j in range(n)) and steps < 60:
         steps += 1
         sim.step(400)
         snap = snapshot()
@@ -351,9 +368,9 @@ def run(sim):
         check_all(snap, op)
     # drain (step cap reached only with raising cancellers and unlucky draws)
     for j in range(n):
-        if not inputs[j].called:
+        if not done[j]:
             snap = snapshot()
-            inputs[j].callback(("v", j, fresh()))
+            targets.get(j, inputs[j]).callback(("v", j, fresh()))
             check_all(snap, "drain")
     snap = snapshot()
     if cancel_w and sim.draw_bool(0.3, "late_cancel"):
